@@ -4,13 +4,15 @@ import N2k.Lemmas.Time32DevList
 import N2k.Lemmas.Time32Rx
 import N2k.Lemmas.Time32PendingInfo
 import N2k.Lemmas.Time32TP
+import N2k.Lemmas.Time32Claim
 /-!
 # C13 — Timed behaviour is independent of the clock origin, including the 32-bit wrap
 
 Primitives: `Basic/Time.lean` (`N2kIsTimeBefore`, `N2kHasElapsed`, `tN2kScheduler` in the 32-bit and the 64-bit
 flavour). Machines: the send path / open machine / address-claim timer of `Model/Send.lean` and the heartbeat machine of
 `Model/Heartbeat.lean`, the reassembly slots (`Model/Rx.lean`), the ISO-TP node (`Model/TP.lean`), the pending-information
-timers (`Model/IsoRequest.lean`) and the request pacing of the device list (`Model/DeviceList.lean`). The shift of a state (`St.shift`, `HSt.shift`) moves the clock and every stored deadline by `k`
+timers (`Model/IsoRequest.lean`), the address-claim instance (`Model/Claim.lean`, `Model/ClaimRx.lean`) and the request pacing of the
+device list (`Model/DeviceList.lean`). The shift of a state (`St.shift`, `HSt.shift`) moves the clock and every stored deadline by `k`
 (modulo 2^32 on the 32-bit build; "disabled" stays "disabled").
 
 The scheduler's documented 1 ms slack: a 32-bit `FromNow(d)` whose result would be the all-ones "disabled" value is
@@ -93,11 +95,14 @@ machine, address-claim timer, heartbeat and synchronised scheduler). The other t
 have their own step-level theorems over their own models: `C13_shift_invariance_rx` (reassembly-slot ageing; run level,
 unconditional), `C13_shift_invariance_tp` (ISO-TP sender/receiver timers, BAM pacing, with the pending information of the
 same node), `C13_shift_invariance_pending_info` (pending product/configuration information retries) and
-`C13_shift_invariance_devlist` (device-list request pacing, unconditional). What remains: the machines are separate
-models, not one composed node state, so there is no single run theorem over all of them (their composition is exercised
-on the real node by the harness probes); `IsoRequest.pollClaim` (address-claim contention, C03's model) and the rest of
-`tN2kDeviceList::HandleMsg` have no shift theorem; the structural obligation `time_sites` pins every clock read of the
-library to the primitives of `C13_primitives_elapsed_only`. -/
+`C13_shift_invariance_devlist` (device-list request pacing, unconditional) and `C13_shift_invariance_claim` /
+`C13_shift_invariance_claim_node` (address-claim contention, commanded address, restart; run level over event
+histories). What remains: the machines are separate models, not one composed node state, so there is no single run
+theorem over all of them (their composition is exercised on the real node by the harness probes);
+`IsoRequest.pollClaim` (the ISO-request node's poll with a received claim; its claim part is `Claim.handleClaim`, covered
+above, but the composed step is not restated) and the rest of `tN2kDeviceList::HandleMsg` have no shift theorem; the
+structural obligation `time_sites` pins every clock read of the library to the primitives of
+`C13_primitives_elapsed_only`. -/
 theorem C13_shift_invariance_partial (k : Nat) (h : HSt) (ops : List Op) (ho : h.ShiftOk k) (hc : ClocksOk k h ops) :
     run (h.shift k) ops = ((run h ops).1.shift k, (run h ops).2) ∧
     (run (h.shift k) ops).1.st.drv = (run h ops).1.st.drv ∧
@@ -121,6 +126,46 @@ theorem C13_shift_invariance_rx (k : Nat) (c : Rx.Cfg) (st : Rx.St) (evs : List 
     (∀ now f, Rx.rx c (st.shift k) (now + k) f = ((Rx.rx c st now f).1.shift k, (Rx.rx c st now f).2)) := by
   obtain ⟨h1, h2⟩ := Rx.run_shift k c evs st
   exact ⟨h1, h2, by unfold Rx.delivered; rw [h2], fun now f => Rx.rx_shift k c st now f⟩
+
+/-- **Shift invariance of the address-claim instance** (`Model/Claim.lean`, C03: `Open()` with `StartAddressClaim()`,
+`HandleISOAddressClaim` — defend, or lose the address, `GetNextAddress`, claim again —, `HandleCommandedAddress`,
+`Restart()`, the claim timer's lazy expiry in `SendHeartbeat`, `ReadResetAddressChanged`), for EVERY history of events
+(`ParseMessages` with any list of received claim frames / commanded-address messages, restarts, clock advances, reads of
+the address-changed latch), both timer builds, every shift `k`: the run from the shifted instance answers
+`ReadResetAddressChanged` identically, puts the same frames on the bus (driver and send queue), ends with the same
+addresses and latches, and in the shifted state. Hypotheses = the sentinel slack of the send model only: `ShiftOk` (no stored
+`OpenScheduler` / `AddressClaimTimer` deadline lands on the all-ones value when shifted) and, at every step, `ClockOk`
+(no `FromNow` of the three delays this machine arms — 200 ms CAN settle, 1000 ms open retry, 250 ms address claim — lands
+on it in either run; 64-bit build: clock + k + 1000 < 2^64 - 1). -/
+theorem C13_shift_invariance_claim (k : Nat) (x : Claim.Inst) (es : List Claim.Ev) (ho : x.s.ShiftOk k)
+    (hc : Claim.ClocksOk k x es) :
+    Claim.run (x.shift k) es = ((Claim.run x es).1.shift k, (Claim.run x es).2) ∧
+    (Claim.run x es).1.s.ShiftOk k ∧
+    (Claim.run (x.shift k) es).1.s.drv = (Claim.run x es).1.s.drv ∧
+    (Claim.run (x.shift k) es).1.s.ring = (Claim.run x es).1.s.ring ∧
+    (Claim.run (x.shift k) es).1.s.devs.map (·.source) = (Claim.run x es).1.s.devs.map (·.source) ∧
+    (Claim.run (x.shift k) es).1.addressChanged = (Claim.run x es).1.addressChanged := by
+  obtain ⟨e, o⟩ := Claim.run_shift es x ho hc
+  refine ⟨e, o, ?_, ?_, ?_, ?_⟩ <;> rw [e]
+  · rfl
+  · rfl
+  · show ((Claim.run x es).1.s.devs.map (Send.Dev.shift _ k)).map (·.source) = _
+    rw [List.map_map]; rfl
+  · rfl
+
+/-- the same instance behind its receive slots (`Model/ClaimRx.lean`: a frame reaches the claim handler only if
+`SetN2kCANBufMsg` finds a slot; the commanded address arrives as a TP transfer that needs one), and the application's
+`SendMsg`: each step commutes with the shift under the same hypotheses (the slots need none) -/
+theorem C13_shift_invariance_claim_node (k : Nat) (n : ClaimRx.Node) (hc : ClockOk n.inst.s.flavor k n.inst.s.now)
+    (ho : n.inst.s.ShiftOk k) :
+    (∀ f, ClaimRx.parseFrame (n.shift k) f = (ClaimRx.parseFrame n f).shift k ∧ (ClaimRx.parseFrame n f).inst.s.ShiftOk k) ∧
+    (∀ dst nm a, ClaimRx.parseCmd (n.shift k) dst nm a = (ClaimRx.parseCmd n dst nm a).shift k ∧
+      (ClaimRx.parseCmd n dst nm a).inst.s.ShiftOk k) ∧
+    (∀ m dev, ClaimRx.appSend (n.inst.shift k) m dev = ((ClaimRx.appSend n.inst m dev).1.shift k, (ClaimRx.appSend n.inst m dev).2) ∧
+      (ClaimRx.appSend n.inst m dev).1.s.ShiftOk k) :=
+  ⟨fun f => ⟨(ClaimRx.parseFrame_shift f ⟨hc, ho⟩).1, (ClaimRx.parseFrame_shift f ⟨hc, ho⟩).2.1⟩,
+   fun dst nm a => ⟨(ClaimRx.parseCmd_shift dst nm a ⟨hc, ho⟩).1, (ClaimRx.parseCmd_shift dst nm a ⟨hc, ho⟩).2.1⟩,
+   fun m dev => ClaimRx.appSend_shift m dev ⟨hc, ho⟩⟩
 
 /-- **Shift invariance of the ISO-TP node** (`Model/TP.lean`: sender — RTS/BAM announce, the 50 ms wait for the first
 CTS / BAM packet pacing, the 100 ms wait after a CTS, EndOfMsgAck / Abort —, receiver — RTS → CTS / EndOfMsgAck, BAM,
@@ -231,6 +276,20 @@ example : (exampleNode .t32 (M32 - 1000)).ShiftOk 2147483648 ∧
   · intro b hb; simp [exampleNode] at hb; subst hb; exact ⟨Or.inl rfl, by decide, by decide⟩
   · refine ⟨⟨by decide, by decide⟩, trivial, ⟨by decide, by decide⟩, trivial, ⟨by decide, by decide⟩, trivial,
       ⟨by decide, by decide⟩, trivial, ⟨by decide, by decide⟩, trivial, trivial⟩
+
+/-- address-claim contention across the 32-bit wrap: an open node at address 30 (NAME 1), 100 ms before the wrap, receives
+a claim for address 30 from a NAME that wins (0): it moves to 31 and claims again; the 250 ms claim timer armed at
+2^32-100 expires after the wrap. History: the frame, +200 ms, poll, +100 ms, poll, read the latch. The hypotheses of
+`C13_shift_invariance_claim` hold for the shift 2^31, and the contention really happens in this run. -/
+def exampleClaimInst : Claim.Inst := { s := { exampleSt .t32 (M32 - 100) with openState := 3 } }
+def exampleClaimEvs : List Claim.Ev :=
+  [.parse [.frame ⟨418316062, 8, [0, 0, 0, 0, 0, 0, 0, 0]⟩], .advance 200, .parse [], .advance 100, .parse [], .readChanged]
+
+example : exampleClaimInst.s.ShiftOk 2147483648 ∧ Claim.ClocksOk 2147483648 exampleClaimInst exampleClaimEvs ∧
+    (Claim.run exampleClaimInst exampleClaimEvs).1.s.devs.map (·.source) = [31] ∧
+    (Claim.run exampleClaimInst exampleClaimEvs).2 = [true] := by
+  refine ⟨⟨by decide, ?_⟩, ⟨by decide, by decide, by decide, by decide, by decide, by decide, trivial⟩, by decide, by decide⟩
+  intro d hd; simp [exampleClaimInst, exampleSt] at hd; subst hd; exact Or.inl rfl
 
 def exampleTpNode (f : Flavor) (now : Nat) : TP.Node :=
   { s := { exampleSt f now with openState := 3 }, tp := fun _ => TP.TpDev.init f, slots := [{}, {}], onlyKnown := false,
